@@ -88,6 +88,7 @@ func TestVFC13StartupUpgrade(t *testing.T) {
 		}
 		sort.Strings(keys)
 		mutation := "none"
+		nulled := false
 		if len(keys) > 0 && rapid.IntRange(0, 2).Draw(t, "mutate") > 0 {
 			k := rapid.SampledFrom(keys).Draw(t, "section")
 			if sub, ok := doc[k].(map[string]any); ok && len(sub) > 0 && rapid.Bool().Draw(t, "one_level_down") {
@@ -97,8 +98,16 @@ func TestVFC13StartupUpgrade(t *testing.T) {
 				}
 				sort.Strings(subKeys)
 				sk := rapid.SampledFrom(subKeys).Draw(t, "key")
-				delete(sub, sk)
-				mutation = "drop " + k + "." + sk
+				if _, isSection := sub[sk].(map[string]any); !isSection && rapid.Bool().Draw(t, "null_instead_of_absent") {
+					// an explicit null: "use the default", for the typed
+					// loader of every schema the same as leaving the key out
+					sub[sk] = nil
+					mutation = "null " + k + "." + sk
+					nulled = true
+				} else {
+					delete(sub, sk)
+					mutation = "drop " + k + "." + sk
+				}
 			} else {
 				delete(doc, k)
 				mutation = "drop " + k
@@ -151,6 +160,12 @@ func TestVFC13StartupUpgrade(t *testing.T) {
 		}
 		desc := fmt.Sprintf("start-up with the %s configuration (%s)", name, mutation)
 
+		if err1 != nil && nulled && !bytes.Equal(afterFirst, body) {
+			// the same file with the key left out starts (or fails without
+			// touching the file); with the explicit null the file was replaced
+			// by one the program itself refuses
+			t.Fatalf("%s: the upgrade replaced the file and the loader refuses the result: %v\nfile now:\n%s", desc, err1, vfC13Excerpt(afterFirst))
+		}
 		if err1 != nil {
 			vfC13H.Class("startup:first_start_failed")
 			if !bytes.Equal(afterFirst, body) {
@@ -190,6 +205,15 @@ func TestVFC13StartupUpgrade(t *testing.T) {
 				desc, vfC13Diff(first, second), "")
 		}
 	})
+}
+
+// vfC13Excerpt shows the beginning of a document.
+func vfC13Excerpt(b []byte) (s string) {
+	if len(b) > 600 {
+		b = b[:600]
+	}
+
+	return string(b)
 }
 
 // vfC13Diff shows the lines that differ between two YAML documents.
@@ -481,4 +505,113 @@ func vfStrIn(s string, ss []string) (ok bool) {
 	}
 
 	return false
+}
+
+// TestVFC13NullLeaves enumerates, for every historical configuration, every
+// setting one level below a section and gives it an explicit null ("use the
+// default" for the typed loader of every schema, like leaving the key out).
+// The start must then do what it does with the key left out: either start, or
+// fail without having replaced the file.
+func TestVFC13NullLeaves(t *testing.T) {
+	vfkit.Begin(t)
+	log.SetOutput(io.Discard)
+
+	repo := os.Getenv("VERIF_REPO")
+	if repo == "" {
+		repo = "/repo"
+	}
+	golden := filepath.Join(repo, "internal", "configmigrate", "testdata", "TestMigrateConfig_Migrate")
+	ents, err := os.ReadDir(golden)
+	if err != nil {
+		t.Fatalf("VERIF-INCONCLUSIVE reading %s: %v", golden, err)
+	}
+	defaults, err := yaml.Marshal(config)
+	if err != nil {
+		t.Fatalf("VERIF-INCONCLUSIVE marshalling the default configuration: %v", err)
+	}
+	prevConfig, prevDir := config, globalContext.workDir
+	defer func() { config, globalContext.workDir = prevConfig, prevDir }()
+	start := func(body []byte) (after []byte, serr error) {
+		dir, derr := os.MkdirTemp("", "vfc13null")
+		if derr != nil {
+			t.Fatalf("VERIF-INCONCLUSIVE mkdir: %v", derr)
+		}
+		defer os.RemoveAll(dir)
+		globalContext.workDir = dir
+		initConfigFilename(options{})
+		if werr := os.WriteFile(configFilePath(), body, 0o644); werr != nil {
+			t.Fatalf("VERIF-INCONCLUSIVE write: %v", werr)
+		}
+		c := &configuration{}
+		if uerr := yaml.Unmarshal(defaults, c); uerr != nil {
+			t.Fatalf("VERIF-INCONCLUSIVE re-reading the default configuration: %v", uerr)
+		}
+		config = c
+		serr = parseConfig()
+		after, _ = os.ReadFile(configFilePath())
+
+		return after, serr
+	}
+
+	cases, refusedBoth := 0, 0
+	for _, e := range ents {
+		b, rerr := os.ReadFile(filepath.Join(golden, e.Name(), "input.yml"))
+		if rerr != nil {
+			continue
+		}
+		var doc map[string]any
+		if yaml.Unmarshal(b, &doc) != nil {
+			continue
+		}
+		var sections []string
+		for k, v := range doc {
+			if _, ok := v.(map[string]any); ok {
+				sections = append(sections, k)
+			}
+		}
+		sort.Strings(sections)
+		for _, sec := range sections {
+			sub := doc[sec].(map[string]any)
+			var keys []string
+			for k, v := range sub {
+				if _, isSection := v.(map[string]any); !isSection && v != nil {
+					keys = append(keys, k)
+				}
+			}
+			sort.Strings(keys)
+			for _, k := range keys {
+				saved := sub[k]
+				sub[k] = nil
+				nulled, _ := yaml.Marshal(doc)
+				delete(sub, k)
+				dropped, _ := yaml.Marshal(doc)
+				sub[k] = saved
+
+				_, errDropped := start(dropped)
+				after, errNulled := start(nulled)
+				cases++
+				vfC13H.Eval()
+				vfC13H.Class("null_leaf:" + e.Name())
+				vfC13H.Nontrivial(fmt.Sprintf("null_leaf|%s|%s.%s", e.Name(), sec, k))
+				switch {
+				case errNulled == nil:
+				case bytes.Equal(after, nulled):
+					// refused, file untouched
+					refusedBoth++
+				case errDropped != nil:
+					// the file without the key is refused after the upgrade as
+					// well: the historical input needs that key
+					refusedBoth++
+				default:
+					t.Fatalf("%s with %s.%s: null: the upgrade replaced the file and the program refuses the result (%v); with the key left out the same "+
+						"file starts\nfile now:\n%s", e.Name(), sec, k, errNulled, vfC13Excerpt(after))
+				}
+			}
+		}
+	}
+	vfC13H.Note("null_leaf_cases", cases)
+	vfC13H.Note("null_leaf_refused_like_absent", refusedBoth)
+	if cases < 300 {
+		t.Fatalf("VERIF-INCONCLUSIVE only %d settings enumerated", cases)
+	}
 }
